@@ -102,6 +102,21 @@ def check(run: Run) -> None:
             if not any(r.startswith(f"{selfp}._q_ast") for r in roots):
                 run.ok("C11.R2", fi, "no mutated location is reached through the stream's _q_ast", "mutated: " + (", ".join(roots) or "nothing"))
 
+    # ---------------- R4: no memoised function hands out AST nodes (they would be shared between streams and then patched in place)
+    from ..lib import memoised_functions, returns_ast
+
+    run.rule("C11.R4", "no memoisation (lru_cache / cache) of functions that return AST nodes: a cached node is shared by every stream built from it and in-place passes change them all")
+    mctx = TermCtx(m, max_depth=2)
+    memo = memoised_functions(m)
+    for mf, deco in memo:
+        if returns_ast(mctx, mf):
+            run.fail("C11.R4", mf, mf.node, f"{mf.name} is memoised with @{deco} and returns AST nodes: the same node objects end up in the queries of several streams, and the in-place passes (type following fix-ups, sugar lowering) applied while deriving one stream change the query of the others", "return a fresh tree on every call")
+        else:
+            run.ok("C11.R4", mf, f"memoised function {mf.name} does not return AST nodes")
+    run.notes["memoised_functions"] = [f.qual for f, _d in memo]
+    if not memo:
+        run.ok("C11.R4", None, "no memoised functions in the package")
+
     # ---------------- R3
     n_mut_defaults = 0
     for fi in m.funcs.values():
